@@ -61,15 +61,11 @@ func verifTree(c *verifCensus, depth int) rel.Value {
 	}
 }
 
-// verif:bound VerifC20LeafCensus result trees of depth <=2 (thorough: <=3) and width <=2 over tuples, (offset) arrays and dicts; leaves true/false/number/plain set
+// verif:bound VerifC20LeafCensus result trees of depth <=2 and width <=2 over tuples, (offset) arrays and dicts; leaves true/false/number/plain set
 // verif:cover VerifC20LeafCensus all-true some-false nested
 func VerifC20LeafCensus() {
 	var c verifCensus
-	depth := 2
-	if verifThorough() {
-		depth = 3
-	}
-	tree := verifTree(&c, depth)
+	tree := verifTree(&c, 2)
 	var results []Result
 	var err error
 	p := verifTry(func() { results, err = RunExpr(context.Background(), tree) })
